@@ -747,15 +747,7 @@ func (e *Env) applyAbstract(a *AbstractSpec, args []Expr) (Term, Ty) {
 	g := e.g
 	rt := g.W.resolveType(a.Pkg, a.Result, g)
 	rs := g.tySort(rt)
-	if !g.absDecl[a.Name] {
-		g.absDecl[a.Name] = true
-		var ps []string
-		for _, p := range a.Params {
-			ps = append(ps, g.tySort(g.W.resolveType(a.Pkg, p, g)))
-		}
-		g.sc.Decl(fmt.Sprintf("(declare-fun %s (%s) %s)", a.Name, strings.Join(ps, " "), rs))
-		g.emitAxiomsMentioning(a.Name)
-	}
+	g.declareAbstract(a)
 	if len(args) != len(a.Params) {
 		g.fail("abstract %s expects %d args, got %d", a.Name, len(a.Params), len(args))
 	}
@@ -777,29 +769,78 @@ func (e *Env) applyAbstract(a *AbstractSpec, args []Expr) (Term, Ty) {
 	return Term{app(a.Name, as...), rs}, rt
 }
 
-// emitAxiomsMentioning emits every axiom all of whose abstract symbols are declared.
-func (g *Gen) emitAxiomsMentioning(_ string) {
+// emitAxiomsMentioning emits every axiom that mentions the abstract function name; the other abstract
+// functions such an axiom mentions are declared on demand.
+func (g *Gen) emitAxiomsMentioning(name string) {
 	for i, ax := range g.W.axioms {
 		key := fmt.Sprintf("axiom:%d", i)
 		if g.sc.declared[key] {
 			continue
 		}
-		ready := true
-		for _, n := range exprIdents(ax.C.E) {
-			if _, isAbs := g.W.abstracts[n]; isAbs && !g.absDecl[n] {
-				ready = false
-				break
+		ids := exprIdents(ax.C.E)
+		mentions := false
+		for _, n := range ids {
+			if n == name {
+				mentions = true
 			}
 		}
-		if !ready {
+		if !mentions {
+			continue
+		}
+		// only pull in abstract functions whose types can be resolved with the loaded packages
+		ok := true
+		for _, n := range ids {
+			if a, isAbs := g.W.abstracts[n]; isAbs && !g.absDecl[n] && !g.resolvable(a) {
+				ok = false
+			}
+		}
+		if !ok {
 			continue
 		}
 		g.sc.declared[key] = true
+		for _, n := range ids {
+			if a, isAbs := g.W.abstracts[n]; isAbs && !g.absDecl[n] {
+				g.declareAbstract(a)
+			}
+		}
 		env := &Env{g: g, pkg: ax.Pkg, vars: map[string]Binding{}, st: &State{heaps: map[string]Term{}}}
 		f := env.trBool(ax.C.E)
 		g.sc.Decl("; axiom " + ax.C.Label)
 		g.sc.Decl("(assert " + f + ")")
 	}
+}
+
+// resolvable reports whether the parameter and result types of an abstract function can be resolved.
+func (g *Gen) resolvable(a *AbstractSpec) (ok bool) {
+	defer func() {
+		if r := recover(); r != nil {
+			if _, is := r.(unsupported); is {
+				ok = false
+				return
+			}
+			panic(r)
+		}
+	}()
+	g.W.resolveType(a.Pkg, a.Result, g)
+	for _, p := range a.Params {
+		g.W.resolveType(a.Pkg, p, g)
+	}
+	return true
+}
+
+func (g *Gen) declareAbstract(a *AbstractSpec) {
+	if g.absDecl[a.Name] {
+		return
+	}
+	g.absDecl[a.Name] = true
+	rt := g.W.resolveType(a.Pkg, a.Result, g)
+	rs := g.tySort(rt)
+	var ps []string
+	for _, p := range a.Params {
+		ps = append(ps, g.tySort(g.W.resolveType(a.Pkg, p, g)))
+	}
+	g.sc.Decl(fmt.Sprintf("(declare-fun %s (%s) %s)", a.Name, strings.Join(ps, " "), rs))
+	g.emitAxiomsMentioning(a.Name)
 }
 
 // exprIdents returns identifiers called or referenced in e.
